@@ -221,6 +221,10 @@ func GenHistory(r *rand.Rand, o HistOpts) History {
 				op.File = "" // standalone files are named after the test: one counter per test
 			}
 			op.Val = genValue(r, api, headers[f], o, h.Classes)
+			if api == "snap" && r.IntN(25) == 0 {
+				op.Empty = true
+				h.Classes["MatchSnapshot-without-values"] = true
+			}
 			if api == "snap" && r.IntN(8) == 0 {
 				op.Multi = []Val{genValue(r, api, headers[f], HistOpts{NoHuge: true, NoHeader: o.NoHeader}, h.Classes)}
 				h.Classes["multi-value-call"] = true
@@ -330,7 +334,7 @@ func (s *Sess) RunProcessN(r *rand.Rand, h *History, m vkit.Mode, noColor bool, 
 	for _, tp := range h.Tests {
 		cnt := map[string]int{}
 		for _, op := range tp.Ops {
-			if !op.standalone() {
+			if !op.standalone() && !op.Empty {
 				p := s.MultiPath(op)
 				cnt[p]++
 				s.AddAddressable(p, vkit.SlotID(tp.Name, cnt[p]))
